@@ -73,8 +73,9 @@ Theorem order_by_limit_k_smallest :
     (forall x y, In x out -> In y rest -> cle cmp x y).
 Proof. exact (@order_by_limit_ok). Qed.
 
-(* the executor's ORDER BY vec <-> q / vec <=> q (no LIMIT): when every row has a comparable key
-   (no NULL distance), the ids returned are the whole table in non-decreasing order of the f64 key *)
+(* the executor's ORDER BY vec <-> q / vec <=> q (no LIMIT): when no key is NaN (NULL keys -- a
+   zero vector under <=> -- are allowed and are the least), the ids returned are the whole table
+   in non-decreasing order of the key *)
 Theorem sql_sort_sorted :
   forall metric q rows ids,
   (forall r, In r (keyed metric q rows) -> key_comparable (snd r) = true) ->
@@ -85,11 +86,11 @@ Proof. exact sql_sort_sorted_l. Qed.
 
 (* the executor's LIMIT k itself (TopK: array max-heap filled with the first k rows, sorted
    descending, root replaced + sift-down for every later smaller row, final ascending sort):
-   for every total preorder, every k >= 1 and every input it returns min(k, n) rows in
-   non-decreasing order, and no row left out is smaller than a row returned *)
+   for every total preorder, every k (k = 0: no row, no panic) and every input it returns
+   min(k, n) rows in non-decreasing order, and no row left out is smaller than a row returned *)
 Theorem topk_heap_k_smallest :
   forall (A : Type) (cmp : A -> A -> comparison), cmp_total_preorder cmp ->
-  forall (k : nat) (rows : list A), (0 < k)%nat ->
+  forall (k : nat) (rows : list A),
     exists out rest, topk cmp k rows = TOk out /\
       Permutation (out ++ rest) rows /\
       length out = Nat.min k (length rows) /\
@@ -97,12 +98,11 @@ Theorem topk_heap_k_smallest :
       (forall x y, In x out -> In y rest -> cle cmp x y).
 Proof. exact (@topk_ok). Qed.
 
-(* ... instantiated: ORDER BY vec <-> q / vec <=> q LIMIT k in the executor model, when every
-   row has a comparable key (no NULL distance) *)
+(* ... instantiated: ORDER BY vec <-> q / vec <=> q LIMIT k in the executor model, every k, when
+   no key is NaN (NULL keys allowed) *)
 Theorem sql_topk_smallest :
   forall metric q rows k ids,
   (forall r, In r (keyed metric q rows) -> key_comparable (snd r) = true) ->
-  (0 < k)%Z ->
   sql_order metric q rows (Some k) = ROk ids ->
   exists out rest, ids = map fst out /\ Permutation (out ++ rest) (keyed metric q rows) /\
      length out = Nat.min (Z.to_nat k) (length rows) /\
@@ -110,18 +110,21 @@ Theorem sql_topk_smallest :
      (forall x y, In x out -> In y rest -> cle row_cmp_rank x y).
 Proof. exact sql_topk_smallest_l. Qed.
 
-(* ---- the two recorded defects, on the model (witnesses run on the real code by the check) ---- *)
-Theorem topk_limit0_panics :
-  forall (A : Type) (cmp : A -> A -> comparison) x rows, topk cmp 0 (x :: rows) = TPanic.
-Proof. exact topk_limit0_panics_l. Qed.
+(* ---- historical: the two defects found by this check, repaired in /repo ----
+   F-C24-2 (before fec49c7 `topk cmp 0 (x :: rows) = TPanic`): LIMIT 0 now returns no row *)
+Theorem topk_limit0_empty :
+  forall (A : Type) (cmp : A -> A -> comparison) rows, topk cmp 0 rows = TOk [].
+Proof. exact topk_limit0_empty_l. Qed.
 
-Theorem cosine_zero_vector_refuted :
+(* F-C24-1 (before 34f5e9d this table came back as [1; 2; 3], distance 2 before distance 0):
+   the NULL-distance row sorts first, the others follow in distance order *)
+Theorem cosine_zero_vector_fixed :
   let rows := [(1, [-2; 0]); (2, [0; 0]); (3, [1; 0])]%Z in
   let q := [1; 0]%Z in
-  sql_order 1 q rows None = ROk [1; 2; 3]%Z /\
+  sql_order 1 q rows None = ROk [2; 3; 1]%Z /\
   cos_key [0; 0]%Z q = SNull /\
-  key_cmp (cos_key [-2; 0]%Z q) (cos_key [1; 0]%Z q) = Gt.
-Proof. exact cosine_zero_vector_refuted_l. Qed.
+  key_cmp (cos_key [1; 0]%Z q) (cos_key [-2; 0]%Z q) = Lt.
+Proof. exact cosine_zero_vector_fixed_l. Qed.
 
 (* ---- non-vacuity ---- *)
 (* Z satisfies the ring hypothesis; the kernels on a length-11 vector (one chunk + tail of 3) *)
@@ -183,7 +186,7 @@ Check sql_sort_sorted :
               StronglySorted (cle row_cmp_rank) out.
 Check topk_heap_k_smallest :
   forall (A : Type) (cmp : A -> A -> comparison), cmp_total_preorder cmp ->
-  forall (k : nat) (rows : list A), (0 < k)%nat ->
+  forall (k : nat) (rows : list A),
     exists out rest, topk cmp k rows = TOk out /\
       Permutation (out ++ rest) rows /\
       length out = Nat.min k (length rows) /\
@@ -192,20 +195,19 @@ Check topk_heap_k_smallest :
 Check sql_topk_smallest :
   forall metric q rows k ids,
   (forall r, In r (keyed metric q rows) -> key_comparable (snd r) = true) ->
-  (0 < k)%Z ->
   sql_order metric q rows (Some k) = ROk ids ->
   exists out rest, ids = map fst out /\ Permutation (out ++ rest) (keyed metric q rows) /\
      length out = Nat.min (Z.to_nat k) (length rows) /\
      StronglySorted (cle row_cmp_rank) out /\
      (forall x y, In x out -> In y rest -> cle row_cmp_rank x y).
-Check topk_limit0_panics :
-  forall (A : Type) (cmp : A -> A -> comparison) x rows, topk cmp 0 (x :: rows) = TPanic.
-Check cosine_zero_vector_refuted :
+Check topk_limit0_empty :
+  forall (A : Type) (cmp : A -> A -> comparison) rows, topk cmp 0 rows = TOk [].
+Check cosine_zero_vector_fixed :
   let rows := [(1, [-2; 0]); (2, [0; 0]); (3, [1; 0])]%Z in
   let q := [1; 0]%Z in
-  sql_order 1 q rows None = ROk [1; 2; 3]%Z /\
+  sql_order 1 q rows None = ROk [2; 3; 1]%Z /\
   cos_key [0; 0]%Z q = SNull /\
-  key_cmp (cos_key [-2; 0]%Z q) (cos_key [1; 0]%Z q) = Gt.
+  key_cmp (cos_key [1; 0]%Z q) (cos_key [-2; 0]%Z q) = Lt.
 
 Print Assumptions l2sq_kernels_exact.
 Print Assumptions dot_kernels_exact.
@@ -217,5 +219,5 @@ Print Assumptions order_by_limit_k_smallest.
 Print Assumptions sql_sort_sorted.
 Print Assumptions topk_heap_k_smallest.
 Print Assumptions sql_topk_smallest.
-Print Assumptions topk_limit0_panics.
-Print Assumptions cosine_zero_vector_refuted.
+Print Assumptions topk_limit0_empty.
+Print Assumptions cosine_zero_vector_fixed.
